@@ -136,6 +136,37 @@ Resolve(base, ref) == Recompose(Transform(Split(base), Split(ref)))
 NoFragment(T) == [T EXCEPT !.fragment = Undef]
 Target(base, ref) == Recompose(NoFragment(Transform(Split(base), Split(ref))))
 
+(***************************************************************************)
+(* 2.1 Percent-encoding, and the fragment form of a JSON Pointer           *)
+(* (RFC 6901 section 6: the pointer is encoded as UTF-8 and every octet     *)
+(* that the fragment rule of RFC 3986 3.5 does not allow is written "%XX").*)
+(***************************************************************************)
+IsAlpha(c) == (c >= 65 /\ c <= 90) \/ (c >= 97 /\ c <= 122)
+IsDigit(c) == c >= 48 /\ c <= 57
+Unreserved(c) == IsAlpha(c) \/ IsDigit(c) \/ c \in {45, 46, 95, 126}            \* - . _ ~
+SubDelim(c) == c \in {33, 36, 38, 39, 40, 41, 42, 43, 44, 59, 61}                \* ! $ & ' ( ) * + , ; =
+FragmentChar(c) == Unreserved(c) \/ SubDelim(c) \/ c \in {58, 64, 47, 63}        \* pchar / "/" / "?"
+Utf8Of(cp) == IF cp < 128 THEN <<cp>>
+              ELSE IF cp < 2048 THEN <<192 + (cp \div 64), 128 + (cp % 64)>>
+              ELSE IF cp < 65536 THEN <<224 + (cp \div 4096), 128 + ((cp \div 64) % 64), 128 + (cp % 64)>>
+              ELSE <<240 + (cp \div 262144), 128 + ((cp \div 4096) % 64), 128 + ((cp \div 64) % 64), 128 + (cp % 64)>>
+HexDigit(n, upper) == IF n < 10 THEN 48 + n ELSE (IF upper THEN 55 ELSE 87) + n
+Pct(b, upper) == <<37, HexDigit(b \div 16, upper), HexDigit(b % 16, upper)>>
+RECURSIVE PctBytes(_, _)
+PctBytes(bs, upper) == IF bs = <<>> THEN <<>> ELSE Pct(bs[1], upper) \o PctBytes(Tail(bs), upper)
+(* mode "min": only what must be encoded; mode "all": everything that is not unreserved *)
+RECURSIVE PctEncode(_, _, _)
+PctEncode(s, all, upper) ==
+  IF s = <<>> THEN <<>>
+  ELSE (IF (IF all THEN Unreserved(s[1]) ELSE FragmentChar(s[1])) THEN <<s[1]>> ELSE PctBytes(Utf8Of(s[1]), upper))
+       \o PctEncode(Tail(s), all, upper)
+(* RFC 6901 section 3: "~" is written ~0 and "/" is written ~1 inside a reference token *)
+RECURSIVE PtrEscape(_)
+PtrEscape(k) == IF k = <<>> THEN <<>>
+                ELSE (IF k[1] = 126 THEN <<126, 48>> ELSE IF k[1] = 47 THEN <<126, 49>> ELSE <<k[1]>>) \o PtrEscape(Tail(k))
+(* the reference token that addresses member k, as it appears in a URI fragment *)
+FragmentToken(k, all, upper) == PctEncode(PtrEscape(k), all, upper)
+
 (* RFC 3986 5.4: a reference resolves identically whether or not the base carries a fragment, and *)
 (* resolving an already resolved reference against the same base changes nothing.                 *)
 =============================================================================
